@@ -103,7 +103,7 @@ def evaluate_complete(case):
 @st.composite
 def produced_cases(draw, tier):
     k = draw(st.sampled_from([1, 2, 2, 3, 3, 4] if tier == "quick" else [1, 2, 3, 3, 4, 4, 5]))
-    how = draw(st.sampled_from(["valid", "coding", "latter_map", "matrix", "nasty"]))
+    how = draw(st.sampled_from(["valid", "coding", "latter_map", "matrix", "nasty", "via_latter_map"]))
     if how in ("valid", "coding", "latter_map") and draw(st.sampled_from([False] * 9 + [True])):
         k = draw(st.sampled_from([6, 7, 8, 8]))  # vertex indices beyond 2^15
     if how == "matrix" and k > 4:
@@ -151,7 +151,12 @@ def evaluate_produced(case):
         graph = {"k": k, "rows": case["rows"]}
         acc = gens.accessor_of(graph)
         table = o.succ_table(k)
-        if how == "latter_map":
+        if how == "via_latter_map":
+            converted = lib_call(lambda: dsw.latter_map_to_accessor(dsw.accessor_to_latter_map(acc), k))
+            if isinstance(converted, Raised):
+                return bad("accessor -> latter map -> accessor raised %r" % converted, labels)
+            accs.append(converted)
+        elif how == "latter_map":
             rng = random.Random(case["order_seed"])
             latter_map = {}
             order = [v for v in range(4 ** k) if case["rows"][v]]
@@ -210,6 +215,7 @@ SUBCHECKS = [
              exhaustive_space="complete accessors of order 1..6 (7 thorough), every entry", rule=RULE),
     SubCheck("produced_graphs", evaluate_produced, strategy=produced_cases, examples=(1200, 12000), shards=(8, 16),
              floors={"how:valid": 80, "how:coding": 80, "how:latter_map": 80, "how:matrix": 80, "how:nasty": 80,
+                     "how:via_latter_map": 80,
                      "k=8": 6},
              rule=RULE),
 ]
